@@ -278,8 +278,17 @@ template<class S> void runCase(const CaseSpec &cs)
 	};
 
 	auto rdBit = [&](const OutputPin &p, bool &def) { auto h = simu(p); def = h.defined(); return def ? h.value() : false; };
-	// words are logged in every cycle, undefined bits as 0 (power-on content of payload registers)
-	auto hexOf = [&](const OutputPins &p) -> std::string { auto h = simu(p); return vh::hex64(h.value() & h.defined()); };
+	// words are logged in every cycle with their definedness: `<hex of the defined bits>` or `<hex>/<hex mask of the undefined bits>`
+	// (undefined = power-on content of payload registers, or whatever a stage wrongly leaves undriven)
+	auto hexOf = [&](const OutputPins &p) -> std::string {
+		auto h = simu(p);
+		const size_t w = h.eval().size();
+		const uint64_t def = h.defined() & mask((unsigned)w);
+		const uint64_t und = ~def & mask((unsigned)w);
+		std::string r = vh::hex64(h.value() & def);
+		if (und) r += "/" + vh::hex64(und);
+		return r;
+	};
 
 	sim.addSimulationProcess([&]() -> SimProcess {
 		bool pending = false, inPacket = false;
@@ -305,7 +314,7 @@ template<class S> void runCase(const CaseSpec &cs)
 			simu(rRaw) = true;
 			simu(rSel) = (uint64_t)0;
 			auto rst = sim.getValueOfReset(clock.getClk());
-			bool active = rst[sim::DefaultConfig::VALUE] == (clock.getClk()->getRegAttribs().resetActive == hlim::RegisterAttributes::Active::HIGH);
+			bool active = !rst[sim::DefaultConfig::DEFINED] || rst[sim::DefaultConfig::VALUE] == (clock.getClk()->getRegAttribs().resetActive == hlim::RegisterAttributes::Active::HIGH);
 			if (k >= 2 && !active) break;
 			if (k > 1000) { std::cerr << "c16: reset never released\n"; exit(3); }
 			co_await OnClk(clock);
